@@ -103,7 +103,9 @@ def to_native(doc, ver, clsname, mode, depth=0):
                 base = dt.datetime(y, mo, dd, secs // 3600, secs % 3600 // 60, secs % 60, us)
                 if mode == "stixdt-aware":
                     base = base.replace(tzinfo=dt.timezone.utc)
-                elif mode == "stixdt-other-constraint":
+                elif mode in ("stixdt-other-constraint", "stixdt-own-tags"):
+                    # "stixdt-own-tags": the slot's own tags, the library's own UTC object, yet more digits than the slot keeps (a value built
+                    # by hand, or by arithmetic on a parsed one): nothing but the digits tells it from a cleaned value
                     import pytz
                     base = base.replace(tzinfo=pytz.utc)        # the very tzinfo object the library's own values carry
                 cons = d.get("constraint", "exact")
@@ -510,7 +512,7 @@ def case_strategy(draw):
                 case["custom"] = cust
                 case["echo"] = "custom"
     if case["source"] == "constructed":
-        case["native"] = draw(st.sampled_from(["naive", "aware", "text", "stixdt-naive", "stixdt-aware", "stixdt-other-constraint", "stixdt-foreign"]))
+        case["native"] = draw(st.sampled_from(["naive", "aware", "text", "stixdt-naive", "stixdt-aware", "stixdt-other-constraint", "stixdt-foreign", "stixdt-own-tags"]))
         m = M.get(ver)
         cname = m.class_for_type(doc["type"]) if doc["type"] != "bundle" else "Bundle"
         droppable = [k for k in ("created", "modified", "id", "valid_from", "spec_version") if k in doc and k in m.props(cname)]
